@@ -204,4 +204,14 @@ theorem sensitive_filtered_cookie (v : String) :
   show (!sensitive.contains "cookie") = false
   decide
 
+theorem span_loop_nodot : ∀ (c acc : List Char), '.' ∉ c →
+    List.span.loop (· != '.') c acc = (acc.reverse ++ c, [])
+  | [], acc, _ => by simp [List.span.loop]
+  | x :: xs, acc, h => by
+    simp only [List.mem_cons, not_or] at h
+    have hx : (x != '.') = true := by
+      simp only [bne_iff_ne, ne_eq]; exact fun e => h.1 e.symm
+    simp only [List.span.loop, hx, span_loop_nodot xs (x :: acc) h.2,
+      List.reverse_cons, List.append_assoc, List.cons_append, List.nil_append]
+
 end TT.Scrub
